@@ -67,6 +67,12 @@ def interval(conds, var, top=None):
             continue
         if t[0] == "ap" and t[1] == "bool" and len(t) == 3:
             t = t[2]
+        if t == var:
+            if v:
+                lo = max(lo, 1)
+            else:
+                hi = 0 if hi is None else min(hi, 0)
+            continue
         if t[0] == "ap" and t[1] == "<" and len(t) == 4:
             X, Y = t[2], t[3]
             if X == var and symx.is_const(Y):
